@@ -76,7 +76,9 @@ def installA (n : Node) (now : Nat) (q : ISReq) : Option (Node × ISResp × List
   let r0 := n.isEnter now q
   let rT := r0.1.term
   -- nothing new
-  if r0.1.snapIndex ≥ q.lastIndex ∨ r0.1.lastApplied ≥ q.lastIndex then some (r0.1, { term := rT }, r0.2, .reply) else
+  -- (the chunk is acknowledged so that the leader finishes the transfer: fix S14)
+  if r0.1.snapIndex ≥ q.lastIndex ∨ r0.1.lastApplied ≥ q.lastIndex then
+    some (r0.1, { term := rT, bytesWritten := q.offset + q.data.length }, r0.2, .reply) else
   let r1 := r0.1.isDiscardOlder q
   let r2 := r1.1.isOpenFile q
   let f := r2.2.2
